@@ -161,8 +161,12 @@ func TestC07Store(t *testing.T) {
 // wire level
 
 type c07Step struct {
-	Op     string    `json:"op"` // pub | sub
-	Pub    int       `json:"pub,omitempty"`
+	Op  string `json:"op"` // pub | sub | release
+	Pub int    `json:"pub,omitempty"`
+	// Hold (pub, QoS 2): the publisher gets its PUBREC and keeps the PUBREL back. A later "release" step of that publisher
+	// re-sends the PUBLISH (DUP=1, same packet identifier) and then completes the flow: the retransmission is the same
+	// message - it must not be applied to the retained store (or forwarded) a second time
+	Hold   bool      `json:"hold,omitempty"`
 	Topic  string    `json:"topic,omitempty"`
 	QoS    byte      `json:"qos,omitempty"`
 	Retain bool      `json:"retain,omitempty"`
@@ -199,6 +203,14 @@ func genC07Wire(t *rapid.T) c07Scen {
 				st.Empty = rapid.IntRange(0, 9).Draw(t, "empty") == 0
 			}
 			usedTopics = append(usedTopics, st.Topic)
+			if st.QoS == 2 && st.Retain && rapid.IntRange(0, 2).Draw(t, "hold") == 0 {
+				// aimed: held back; the other publisher writes the same topic; then the retransmission and the release
+				st.Hold = true
+				s.Steps = append(s.Steps, st)
+				other := c07Step{Op: "pub", Pub: 1 - st.Pub, Topic: st.Topic, QoS: byte(rapid.IntRange(0, 2).Draw(t, "oqos")), Retain: true, Empty: rapid.Bool().Draw(t, "oempty")}
+				s.Steps = append(s.Steps, other, c07Step{Op: "release", Pub: st.Pub})
+				continue
+			}
 			s.Steps = append(s.Steps, st)
 		} else {
 			cl := rapid.IntRange(0, ns-1).Draw(t, "client")
@@ -259,6 +271,7 @@ func runC07Wire(s c07Scen, c *ev.Case) *ev.Violation {
 	kfRetain := ev.KF("F-retained-replay-flag")
 
 	var pubs, subsC []*fixture.Client
+	held := map[int][]*mw.Packet{} // per publisher: QoS 2 publishes whose PUBREL is kept back
 	for i, v := range s.PubVers {
 		cl, ack, err := b.Connect(fixture.ConnectOpts{ID: fmt.Sprintf("p%d", i), V: ver(v), CleanStart: true, AutoAck: true})
 		if err != nil || ack.ReasonCode != 0 {
@@ -292,6 +305,33 @@ func runC07Wire(s c07Scen, c *ev.Case) *ev.Violation {
 			kfAlt[i] = map[string]bool{}
 		}
 		switch st.Op {
+		case "release":
+			if len(held[st.Pub]) == 0 {
+				c.Count("skipped_ops", 1)
+				continue
+			}
+			pk := held[st.Pub][0]
+			held[st.Pub] = held[st.Pub][1:]
+			p := pubs[st.Pub]
+			dup := *pk
+			dup.Dup = true
+			if err := p.Send(&dup); err != nil {
+				return harnessErr("send: %v", err)
+			}
+			if _, err := p.WaitAck(mw.PUBREC, pk.PacketID, fixture.DefaultWait); err != nil {
+				return ev.Violf("C07.ack", "retransmitted QoS 2 publish not answered by PUBREC: %v", err)
+			}
+			if err := p.Send(&mw.Packet{Type: mw.PUBREL, PacketID: pk.PacketID}); err != nil {
+				return harnessErr("send: %v", err)
+			}
+			if _, err := p.WaitAck(mw.PUBCOMP, pk.PacketID, fixture.DefaultWait); err != nil {
+				return ev.Violf("C07.ack", "PUBREL not answered by PUBCOMP: %v", err)
+			}
+			if err := p.Ping(fixture.DefaultWait); err != nil {
+				return ev.Violf("C07.ping", "%v", err)
+			}
+			changed = true
+			c.Label("qos2_retained_publish_retransmitted_then_released")
 		case "pub":
 			uid++
 			payload := fmt.Sprintf("m%d", uid)
@@ -303,7 +343,17 @@ func runC07Wire(s c07Scen, c *ev.Case) *ev.Violation {
 				pk.PacketID = uint16(10 + si)
 			}
 			p := pubs[st.Pub]
-			if _, err := p.Publish(pk); err != nil {
+			if st.Hold && st.QoS == 2 {
+				pk.Type = mw.PUBLISH
+				if err := p.Send(pk); err != nil {
+					return harnessErr("send: %v", err)
+				}
+				if _, err := p.WaitAck(mw.PUBREC, pk.PacketID, fixture.DefaultWait); err != nil {
+					return ev.Violf("C07.ack", "QoS 2 publish not answered by PUBREC: %v", err)
+				}
+				held[st.Pub] = append(held[st.Pub], pk)
+				c.Label("qos2_retained_publish_held_before_pubrel")
+			} else if _, err := p.Publish(pk); err != nil {
 				return ev.Violf("C07.ack", "publish not acknowledged: %v", err)
 			}
 			if err := p.Ping(fixture.DefaultWait); err != nil {
